@@ -8,7 +8,10 @@ MCDicts == [e |-> <<>>,
             b1 |-> <<<<"x-b", "1">>>>, ab |-> <<<<"X-A", "4">>, <<"X-B", "5">>>>,
             cl |-> <<<<"Content-Length", "0">>, <<"x-b", "6">>>>, ct |-> <<<<"CONTENT-type", "text/evil">>>>,
             ua |-> <<<<"User-Agent", "ua1">>>>, UA |-> <<<<"user-AGENT", "ua2">>, <<"x-a", "7">>>>,
-            ho |-> <<<<"Host", "backend.internal">>>>, HO |-> <<<<"hOST", "second.internal">>, <<"x-b", "8">>>>]
+            ho |-> <<<<"Host", "backend.internal">>>>, HO |-> <<<<"hOST", "second.internal">>, <<"x-b", "8">>>>,
+            \* (a truth value under the raw name of a1: the harness hands in the Python object True, which is EQUAL to the
+            \* integer 1 that a1 may carry, and is sent as the text "True")
+            t1 |-> <<<<"x-a", "True">>>>]
 \* a history is printed when it is complete
 VARIABLE hist
 HInit == Init /\ hist = <<stack[1]>>
